@@ -55,6 +55,10 @@ static int myth_init_ex_body_really(const myth_globalattr_t * attr) {
   //Create worker threads
   intptr_t i;
   for (i = 1; i < nw; i++){
+#if defined(MYTH_VERIF)
+    /* the simulator runs the worker as a coroutine when it is active */
+    if (myth_verif_spawn_worker(myth_worker_thread_fn, (void*)i)) continue;
+#endif
     real_pthread_create(&g_envs[i].worker, NULL,
 			myth_worker_thread_fn, (void*)i);
   }
@@ -64,11 +68,13 @@ static int myth_init_ex_body_really(const myth_globalattr_t * attr) {
 }
 
 int myth_init_once_ctl_try_set(volatile int * var, int old, int new) {
+  MYTH_VERIF_POINT(MYTH_VS_INIT_CAS);
   return __sync_bool_compare_and_swap(var, old, new);
 }
 
 void myth_init_once_ctl_wait(volatile int * var, int val) {
   while (*var != val) {
+    MYTH_VERIF_SPIN(MYTH_VS_INIT_SPIN);
     real_sched_yield();
   }
 }
@@ -88,6 +94,7 @@ int myth_init_ex_body(const myth_globalattr_t * attr) {
   }
   assert(g_myth_init_state == myth_init_state_initializing);
   myth_init_ex_body_really(attr);
+  MYTH_VERIF_POINT(MYTH_VS_INIT_DONE_WR);
   g_myth_init_state = myth_init_state_initialized;
   return 1;			/* OK */
 }
@@ -392,6 +399,9 @@ int myth_fini_body() {
   assert(rank == 0);
   //Wait for other worker threads
   for (i = 1; i < g_attr.n_workers; i++) {
+#if defined(MYTH_VERIF)
+    if (myth_verif_join_worker(i)) continue;
+#endif
     real_pthread_join(g_envs[i].worker, NULL);
   }
   myth_fini_body_really();
